@@ -39,9 +39,12 @@ def gen_group(rng, depth, inherited):
         vd = [rng.choice(sorted(visible)) for _ in range(rank)]
         ty = rng.choice(NCTYPES)
         attrs = {}
-        if rng.random() < 0.4 and ty not in ("S1",):
-            attrs["scale_factor"] = 0.5
-            attrs["add_offset"] = 10.0
+        if rng.random() < 0.5 and ty not in ("S1",):
+            pick = rng.choice(["both", "scale", "offset"])
+            if pick in ("both", "scale"):
+                attrs["scale_factor"] = 0.5
+            if pick in ("both", "offset"):
+                attrs["add_offset"] = 10.0
         if rng.random() < 0.3:
             attrs["units"] = rng.choice(["m", "K", "degrees_north"])
         fill = rng.random() < 0.3 and ty not in ("S1",)
